@@ -107,6 +107,9 @@ func (x *Exec) instr(fr *frame, ins ssa.Instruction, st *State, r string) (strin
 			r = x.guard(fr, ins, r, and(sx("<=", "0", idx), sx("<", idx, base[2].T)), "index")
 			es := ls.size(t.Elem())
 			x.setVal(fr, i, Val{base[0], ic(add(base[1].T, mulc(idx, es)))})
+			if es > 1 {
+				x.instantiateAt(idx)
+			}
 		case *types.Pointer: // *[N]T
 			arr := t.Elem().Underlying().(*types.Array)
 			r = x.guard(fr, ins, r, not(eq(base[0].T, "0")), "nil-deref")
@@ -578,4 +581,24 @@ func instrIndex(ins ssa.Instruction) int {
 		}
 	}
 	return 0
+}
+
+// instantiateAt states the instance at index idx of every quantified hypothesis registered by the
+// contract (a `forall` over the elements of a slice in a precondition).  The solvers do not find
+// these instances themselves: the element address is off + idx*size + cell, and after arithmetic
+// normalisation no trigger matches it.  Instances of an assumed universal formula are sound.
+func (x *Exec) instantiateAt(idx string) {
+	if len(x.qInst) == 0 {
+		return
+	}
+	if x.qDone == nil {
+		x.qDone = map[string]bool{}
+	}
+	if x.qDone[idx] || len(x.qDone) > 64 {
+		return
+	}
+	x.qDone[idx] = true
+	for _, f := range x.qInst {
+		x.vc.S.raw("(assert " + f(idx) + ")")
+	}
 }
